@@ -89,6 +89,12 @@ CHECKS.update({
                 design="4/C09, 2.2", note=BASE_NOTE + " Bytes beneath a mask may change."),
 })
 
+CHECKS.update({
+    "C17": dict(engine="csvio", technique="TLC: CsvIO.tla Read/Write definitions with RowOrder, ColumnIndependent, MaskExact, RoundTrip, ErrorLineIsPhysical over all small tables; files written to disk, real EEMSRead/EEMSWrite observations validated by TLC (CsvIOTrace.tla); values compared by float.hex identity",
+                text="TLC enumerates tables (rows, blank lines, short rows, non-numeric cells, the missing value, header names needing quoting), requested fields, MissingVal and element types and checks the reader/writer laws on the definitions; the two-row tables are concretised with doubles chosen per run (random bit patterns, subnormals, extremes, negative zero, neighbours of the missing value; LF/CRLF) and pushed through the real reader and writer (the column and its reverse written under names that need quoting, read back); every observation is validated by TLC: order, mask exactly at cells equal to the missing value, element type, error class and physical line, header order, bit-identical round trip.",
+                design="4/C17, 2.9", note=BASE_NOTE + " Integer reads only on integral values; printing of missing cells is outside the round trip."),
+})
+
 NOT_YET = "check not built yet (build in progress; see DESIGN.md section 4b build order)"
 
 
@@ -133,6 +139,7 @@ def main():
             {"name": "eems2", "path": "harness/eems2.py", "serves_properties": ["C16"], "kind_free_text": "TLC (spec/MPEems2.tla, MPEems2Trace.tla; MC_Eems2/MC_Decl generated) + loader driver"},
             {"name": "registry", "path": "harness/registry.py", "serves_properties": ["C19"], "kind_free_text": "TLC (spec/MPRegistry.tla, MPRegistryTrace.tla) + forked replay children"},
             {"name": "heap", "path": "harness/heap.py", "serves_properties": ["C09"], "kind_free_text": "TLC (spec/MPHeap.tla, MPHeapTrace.tla) + digest histories over the real commands"},
+            {"name": "csvio", "path": "harness/csvio.py", "serves_properties": ["C17"], "kind_free_text": "TLC (spec/CsvIO.tla, CsvIOTrace.tla) + file fixtures and the real CSV reader/writer"},
             {"name": "validate", "path": "harness/validate.py", "serves_properties": ["C12", "C13"],
              "kind_free_text": "TLC (spec/MPValidateDefs.tla, MPValidate.tla, MPValidateTrace.tla, MPCli.tla, MPCliTrace.tla; MC_Decl generated by harness/decl.py) + renderer/runner"},
         ],
